@@ -3,14 +3,21 @@
 package verifkit
 
 import (
+	"crypto/ecdsa"
+	"crypto/elliptic"
+	"crypto/rand"
 	"encoding/binary"
 	"encoding/pem"
 	"fmt"
+	"math/big"
+	"sync"
+	"time"
 
 	ct "github.com/google/certificate-transparency-go"
 	"github.com/google/certificate-transparency-go/testdata"
 	"github.com/google/certificate-transparency-go/tls"
 	"github.com/google/certificate-transparency-go/x509"
+	"github.com/google/certificate-transparency-go/x509/pkix"
 )
 
 // Pay is the payload identifier of entry i of the source log with the given seed. The Lean model
@@ -34,13 +41,58 @@ const NClasses = 8
 type SrcClass struct {
 	Precert bool   // entry type precert_entry (else x509_entry)
 	Cert    []byte // the (pre-)certificate DER as submitted (garbage for the unparsable classes)
+	TBS     []byte // precert classes: the TBSCertificate of the leaf (nil = the test-data precertificate's)
 	Bad     bool   // the certificate / TBS does not parse
+	Lax     bool   // the certificate / TBS parses, but only with non-fatal errors (x509.NonFatalErrors)
+}
+
+var (
+	laxOnce         sync.Once
+	laxCert, laxPre []byte
+	laxPreTBS       []byte
+)
+
+// laxCerts builds (once per process) a certificate and a precertificate that parse with *non-fatal* errors only: they carry
+// a non-critical RFC 3779 AS-identifiers extension whose body is not valid ASN.1 (such certificates exist in real logs).
+func laxCerts() ([]byte, []byte, []byte) {
+	laxOnce.Do(func() {
+		key, err := ecdsa.GenerateKey(elliptic.P256(), rand.Reader)
+		if err != nil {
+			panic(err)
+		}
+		bad := pkix.Extension{Id: x509.OIDExtensionASList, Critical: false, Value: []byte{0x01}}
+		poison := pkix.Extension{Id: x509.OIDExtensionCTPoison, Critical: true, Value: []byte{0x05, 0x00}}
+		mk := func(serial int64, cn string, exts []pkix.Extension) []byte {
+			tmpl := &x509.Certificate{SerialNumber: big.NewInt(serial), Subject: pkix.Name{CommonName: cn}, NotBefore: time.Unix(1500000000, 0),
+				NotAfter: time.Unix(1900000000, 0), DNSNames: []string{cn}, ExtraExtensions: exts}
+			der, err := x509.CreateCertificate(rand.Reader, tmpl, tmpl, &key.PublicKey, key)
+			if err != nil {
+				panic(err)
+			}
+			return der
+		}
+		laxCert = mk(77001, "lax.example.com", []pkix.Extension{bad})
+		laxPre = mk(77002, "laxpre.example.com", []pkix.Extension{poison, bad})
+		for _, der := range [][]byte{laxCert, laxPre} {
+			if c, err := x509.ParseCertificate(der); c == nil || err == nil || x509.IsFatal(err) {
+				panic(fmt.Sprintf("verifkit: want a certificate with non-fatal parse errors only, got cert=%v err=%v", c != nil, err))
+			}
+		}
+		pc, _ := x509.ParseCertificate(laxPre)
+		laxPreTBS = pc.RawTBSCertificate
+		if c, err := x509.ParseTBSCertificate(laxPreTBS); c == nil || err == nil || x509.IsFatal(err) {
+			panic(fmt.Sprintf("verifkit: want a TBSCertificate with non-fatal parse errors only, got cert=%v err=%v", c != nil, err))
+		}
+	})
+	return laxCert, laxPre, laxPreTBS
 }
 
 // SrcLog is a deterministic source log: entry i is a function of (Seed, i).
 type SrcLog struct {
 	Seed    uint64
 	Opaque  bool // entries are opaque bytes (not MerkleTreeLeaf structures); enough for the Fetcher, which never looks inside
+	Unique  bool // every index carries a different certificate (x509 entries only): the first UniquePool indices a distinct well-formed
+	// certificate, the others distinct byte strings that do not parse. Needed where the certificate bytes identify the leaf (SHA256_CERT_DATA).
 	Classes [NClasses]SrcClass
 	ca      []byte
 	tbs     []byte
@@ -71,11 +123,55 @@ func NewSrcLog(seed uint64, opaque bool) *SrcLog {
 		l.ikh[i] = byte(i + 1)
 	}
 	garbage := []byte{0x30, 0x03, 0x01, 0x02, 0x03}
+	lc, lp, lpTBS := laxCerts()
 	l.Classes = [NClasses]SrcClass{
 		{Cert: c0}, {Cert: l.ca}, {Precert: true, Cert: pre}, {Cert: c3},
-		{Precert: true, Cert: pre}, {Cert: c0}, {Cert: garbage, Bad: true}, {Precert: true, Cert: garbage, Bad: true},
+		{Precert: true, Cert: lp, TBS: lpTBS, Lax: true}, {Cert: lc, Lax: true}, {Cert: garbage, Bad: true}, {Precert: true, Cert: garbage, Bad: true},
 	}
 	return l
+}
+
+// UniquePool is the number of distinct well-formed certificates available to a Unique log.
+const UniquePool = 40
+
+var (
+	uniqOnce sync.Once
+	uniqPool [][]byte
+)
+
+func uniquePool() [][]byte {
+	uniqOnce.Do(func() {
+		key, err := ecdsa.GenerateKey(elliptic.P256(), rand.Reader)
+		if err != nil {
+			panic(err)
+		}
+		for i := 0; i < UniquePool; i++ {
+			cn := fmt.Sprintf("u%d.example.com", i)
+			tmpl := &x509.Certificate{SerialNumber: big.NewInt(int64(88000 + i)), Subject: pkix.Name{CommonName: cn}, NotBefore: time.Unix(1500000000, 0),
+				NotAfter: time.Unix(1900000000, 0), DNSNames: []string{cn}}
+			der, err := x509.CreateCertificate(rand.Reader, tmpl, tmpl, &key.PublicKey, key)
+			if err != nil {
+				panic(err)
+			}
+			uniqPool = append(uniqPool, der)
+		}
+	})
+	return uniqPool
+}
+
+// CertOf returns the certificate bytes entry i carries (what SHA256_CERT_DATA hashes), whether the entry is a precertificate,
+// and whether the certificate fails to parse.
+func (l *SrcLog) CertOf(i int64) (cert []byte, precert, bad bool) {
+	if l.Unique {
+		if i < UniquePool {
+			return uniquePool()[i], false, false
+		}
+		b := []byte{0x30, 0x0a, 0x04, 0x08, 0, 0, 0, 0, 0, 0, 0, 0}
+		binary.BigEndian.PutUint64(b[4:], uint64(i))
+		return b, false, true
+	}
+	c := l.Classes[l.Class(i)]
+	return c.Cert, c.Precert, c.Bad
 }
 
 // Class returns the class of entry i.
@@ -99,6 +195,10 @@ func (l *SrcLog) Entry(i int64) ct.LeafEntry {
 		return ct.LeafEntry{LeafInput: li, ExtraData: r.Bytes(r.Intn(12))}
 	}
 	c := l.Classes[p%NClasses]
+	if l.Unique {
+		cert, _, _ := l.CertOf(i)
+		c = SrcClass{Cert: cert}
+	}
 	if !c.Precert {
 		leaf := ct.CreateX509MerkleTreeLeaf(ct.ASN1Cert{Data: c.Cert}, p)
 		return ct.LeafEntry{
@@ -107,6 +207,9 @@ func (l *SrcLog) Entry(i int64) ct.LeafEntry {
 		}
 	}
 	tbs := l.tbs
+	if c.TBS != nil {
+		tbs = c.TBS
+	}
 	if c.Bad {
 		tbs = c.Cert
 	}
